@@ -57,6 +57,7 @@ type Obligation struct {
 	Script  string
 	ScriptQF string
 	Inputs  []*Term
+	Queries []*Term
 	IsCover bool // vacuity/cover check: expected SAT
 	Parts   []*Obligation // alternative decomposition (per return point); all unsat => discharged
 }
@@ -78,6 +79,7 @@ type Proof struct {
 	assumedLib  map[string]bool
 	initHeap    map[string]*Term
 	strSeen     map[int]bool
+	typeInvSeen map[int]bool
 	specSeen    map[int]bool
 	specDefs    []*Term
 	inSpecUnfold bool
@@ -133,10 +135,16 @@ func objKey(t types.Type, path string) string { return typeKey(t) + path }
 
 // loadObj reads a value of type ft located at path inside object (root type rt) at ref.
 func (p *Proof) loadObj(st *State, rt types.Type, ref *Term, path string, ft types.Type) Value {
-	return build(ft, func(l leafSpec) *Term {
+	v := build(ft, func(l leafSpec) *Term {
 		c := p.heapCell(st, objKey(rt, path+l.Path), SArr(SRef, l.Sort))
 		return Select(c, ref)
 	})
+	// well-typedness of stored slice headers / strings / references (type invariant of the Go heap)
+	if inv := p.typeInv(st, ft, v); inv != tTrue && !p.typeInvSeen[inv.id] {
+		p.typeInvSeen[inv.id] = true
+		p.assume(True(), inv)
+	}
+	return v
 }
 
 func (p *Proof) storeObj(st *State, rt types.Type, ref *Term, path string, ft types.Type, v Value) {
